@@ -146,6 +146,9 @@ func newEventFromUntrustedJSONV2(eventJSON []byte, roomVersion IRoomVersion) (PD
 	if err := checkNoDuplicateKeys(eventJSON); err != nil {
 		return nil, BadJSONError{err}
 	}
+	if err := checkReceivedEventLength(eventJSON); err != nil {
+		return nil, err
+	}
 
 	res := &eventV2{}
 	var err error
@@ -339,6 +342,21 @@ func checkEventLength(eventJSON []byte) error {
 		}
 	}
 	return nil
+}
+
+// checkReceivedEventLength applies the size limit to an event as it was
+// received, with the members that the untrusted parsers drop (unsigned, ...)
+// still in place: those count towards the size of a PDU like everything else.
+func checkReceivedEventLength(eventJSON []byte) error {
+	if len(eventJSON) <= maxEventLength {
+		// small enough as it is; what is kept of it is measured again later
+		return nil
+	}
+	canonical, err := CanonicalJSON(eventJSON)
+	if err != nil {
+		return BadJSONError{err}
+	}
+	return checkEventLength(canonical)
 }
 
 func newEventFromTrustedJSONV2(eventJSON []byte, redacted bool, roomVersion IRoomVersion) (PDU, error) {
